@@ -198,9 +198,8 @@ which the row is blank: the "…" stands where the rest of the line does **not**
 columns (`needless-ellipsis` when it fits exactly — finding F316, fixed; `early-ellipsis` when with room to
 spare), behind the longest prefix that leaves it a column (`short-prefix`), and it must be there
 (`missing-ellipsis`); a line that fits is there whole and no cell sticks out over `Max.Width`. -/
-def hardDrawVerdict (cells : List Cell) (impl : String) (maxW maxH : Nat) : String :=
+def hardDrawVerdictLines (ls : List (List Cell)) (impl : String) (maxW maxH : Nat) : String :=
   if impl = "panic" then "FAIL hard_draw panic" else if impl = "hang" then "FAIL hard_draw hang" else
-  let ls := splitNl cells
   match impl.splitOn ":" with
   | [hdr, body] =>
     match ((hdr.drop 1).toString.splitOn "x").mapM (·.toNat?) with
@@ -253,6 +252,9 @@ def hardDrawVerdict (cells : List Cell) (impl : String) (maxW maxH : Nat) : Stri
     | _ => "FAIL hard_draw malformed surface"
   | _ => "FAIL hard_draw malformed surface"
 
+def hardDrawVerdict (cells : List Cell) (impl : String) (maxW maxH : Nat) : String :=
+  hardDrawVerdictLines (splitNl cells) impl maxW maxH
+
 /-- `DW maxW nlines` / `DWR maxW nlines` (F216 witness): `Text.Draw` / `RichText.Draw` of `nlines` lines "a", …, "a", "b", "c" at
 Max = maxW × 65535.  The expected value is **not** an execution of the model (65535 rows of
 `List.set` are too slow) but the *proved specification* `Props.C16Draw.draw_row_is_line`: the
@@ -302,7 +304,20 @@ def step (line : String) : String :=
       let v := if impl = exp then "ok" else s!"FAIL draw_row_is_line rows 0..2 of {nl} lines at Max.Height 65535 are not lines 0..2"
       s!"{exp}\t{impl}\t{v}"
     | _, _ => bad
-  | [kind, wlo, whi, _al, ws, fl, lbm, cs, sty] =>
+  | [kind, wlo, whi, al, ws, fl, lbm, cs, sty] =>
+    if kind = "DT" then
+      -- Text.Draw, Softwrap = false: lo = Max.Width, hi = Max.Height; every cell in Text.Style.
+      -- Model = `WrapDraw.textHardDraw`: `text.hardLines` + C14's drawing loops (`Layout.drawText`, hard mode
+      -- of Text); oracle = the hard-wrap row oracle over the lines of the property text
+      match parseAlpha ws fl, commaNats? cs, commaNats? sty, wlo.toNat?, whi.toNat? with
+      | some a, some ids, some stys, some lo, some hi =>
+        let st := stys.headD 0
+        let cells := ids.map fun i => mkCell a i st
+        let spaceId := ((al.splitOn ",").idxOf? "20").getD 4095
+        let d := WrapDraw.textHardDraw (charsOf a spaceId) st (UInt16.ofNat lo) (UInt16.ofNat hi) cells
+        s!"{encDrawn d}\t{impl}\t{hardDrawVerdict cells impl lo hi}"
+      | _, _, _, _, _ => bad
+    else
     if kind = "R" ∨ kind = "DR" ∨ kind = "DH" then
       match parseAlpha ws fl, commaNats? cs, commaNats? sty, wlo.toNat?, whi.toNat? with
       | some a, some ids, some stys, some lo, some hi =>
